@@ -527,6 +527,7 @@ def main_wraps(chk, P):
     I.hooks["atsim.potentials.tools.potable:_setup_logging"] = lambda i, fv, a, k, n: NONE
 
     def boom(i, fv, a, k, n):
+        seen["call"] = (list(a), dict(k))
         raise RaiseSignal(ExcV(ClassV(cfgcls), [Const("the message")]), n)
     I.hooks["atsim.potentials.tools.potable:_do_tabulation"] = boom
     out = outcome(lambda: I.run(fi, []))
@@ -535,6 +536,28 @@ def main_wraps(chk, P):
     ok = out[0] == "ok" and msg is not None and "configuration error - " in txt
     chk.ob("C16.E9", "main() catches ConfigurationException (and subclasses) and calls parser.error('configuration error - ...')", ok,
            site=fi.site(), found=msg if msg is not None else out, expect="configuration error - <message>", key="C16.E9|main")
+    # the worker receives the parser where it expects the parser (the parameter it calls .error() on) and the parsed options in
+    # the other slot
+    dofi = P.func("atsim.potentials.tools.potable", "_do_tabulation")
+    params = dofi.params()
+    perr = set()
+    for n in ast.walk(dofi.node):
+        if isinstance(n, ast.Call) and isinstance(n.func, ast.Attribute) and n.func.attr == "error" and isinstance(n.func.value, ast.Name) \
+                and n.func.value.id in params:
+            perr.add(n.func.value.id)
+    call = seen.get("call")
+    ok2 = False
+    found = call
+    if call is not None and len(perr) == 1:
+        bound = dict(zip(params, call[0]))
+        bound.update(call[1])
+        pp = perr.pop()
+        others = [v for k_, v in bound.items() if k_ != pp]
+        ok2 = isinstance(bound.get(pp), PyObjV) and isinstance(bound[pp].obj, Parser) and len(others) == 1 \
+            and others[0].key() == W.param("args").key()
+        found = dict((k_, repr(v)) for k_, v in bound.items())
+    chk.ob("C16.E9", "main() hands the argument parser and the parsed options to the worker in the worker's parameter order", ok2,
+           site=fi.site(), found=found, expect="%s(parser, options)" % dofi.name, key="C16.E9|main-arguments")
 
 
 def documented_valid(chk, P):
@@ -796,6 +819,13 @@ def nested_call_arity(chk, P):
                found=got if got != "other-exception" else o, expect=want, key="C16.E14|callback|%d" % nargs)
 
 
+def _enclosing_try(fnode, handler):
+    for n in ast.walk(fnode):
+        if isinstance(n, ast.Try) and handler in n.handlers:
+            return n
+    return None
+
+
 def no_swallowing(chk, P):
     """an error caught on the configuration path is re-raised (as a configuration error: E8), answered with a fallback value,
     or ends the program - never dropped, because what the try block was computing is then missing further on"""
@@ -824,6 +854,21 @@ def no_swallowing(chk, P):
                                                                               "StopIteration", "NameError")
                                              for t in (node.type.elts if isinstance(node.type, ast.Tuple) else [node.type])):
                 continue
-            chk.ob("C16.E15", "%s: the handler for %s does something with the error" % (fi.qualname, what), bool(eff), site=fi.site(node),
-                   found="handler body is only pass / logging" if not eff else None, expect="raise / return / fallback value",
-                   key="C16.E15|%s|%s" % (fi.fq, what))
+            ok = False
+            if eff:
+                last = eff[-1]
+                if isinstance(last, (ast.Raise, ast.Return, ast.Continue, ast.Break)):
+                    ok = True
+                elif isinstance(last, ast.Expr) and isinstance(last.value, ast.Call) and isinstance(last.value.func, ast.Attribute) \
+                        and last.value.func.attr in ("error", "exit"):
+                    ok = True         # ArgumentParser.error / sys.exit end the program
+                else:
+                    # fallback value: the handler binds a name that the guarded block was binding
+                    tr = _enclosing_try(fi.node, node)
+                    bound_try = set(n.id for st in (tr.body if tr is not None else []) for n in ast.walk(st)
+                                    if isinstance(n, ast.Name) and isinstance(n.ctx, ast.Store))
+                    bound_h = set(n.id for st in eff for n in ast.walk(st) if isinstance(n, ast.Name) and isinstance(n.ctx, ast.Store))
+                    ok = bool(bound_try & bound_h)
+            chk.ob("C16.E15", "%s: the handler for %s re-raises, returns, ends the program or supplies a fallback value" % (fi.qualname, what),
+                   ok, site=fi.site(node), found="the error is dropped and execution continues without the guarded result" if not ok else None,
+                   expect="raise / return / fallback value", key="C16.E15|%s|%s" % (fi.fq, what))
